@@ -1,8 +1,270 @@
-(* C08 — placeholder while the proofs are being built (replaced below) *)
-From mathcomp Require Import ssreflect ssrfun ssrbool eqtype ssrnat seq.
-Require Import C08.Model.
+(* C08 — conjugate gradients: theorems about the Gallina transcription [linear_cg] of
+   linear_operator/utils/linear_cg.py (coq/C08/Model.v).  Only statements live here; each is closed by
+   `exact`/`apply` of a lemma of Proofs*.v.  The very same terms ([cg_prepare], [cg_states], [cg_final],
+   [cg_finish], [linear_cg]) are executed on binary64 against the implementation by the correspondence
+   shards (coq/C08/Check.v instantiates the model with [ArFloat]).
 
-Theorem cg_guard_tridiag_limit : forall F (A : Arith F) S (g : cg_args F),
-  odflt (s_max_cg_iterations S) (g_max_iter g) < odflt (s_max_lanczos_quadrature_iterations S) (g_max_tridiag_iter g) ->
-  linear_cg A S g = Err ErrTridiagLimit.
-Proof. by move=> F A S g H; rewrite /linear_cg /cg_prepare H. Qed.
+   Arithmetic instances (ProofsBase.v):
+     [RA dv sq ab lt le eq] — any commutative ring R with its own 0 1 + - * ; division, square root, absolute
+        value and the three comparisons are ARBITRARY functions (so the theorem also covers every way the
+        safe divisions, masks and thresholds could come out);
+     [FA F] — a real closed field F with its real division, Num.sqrt, |.|, <, <=, ==.
+   The matmul closure is any function on column lists that multiplies flat column j by a matrix [Am j]
+   ([col_linear]; the dense closure of a tensor argument is one: [cg_dense_closure_linear]).
+   All sizes n, all numbers of columns / batch members C, all iteration limits, all settings: universally
+   quantified.  NOT proved here: the Chebyshev rate 2((sqrt k - 1)/(sqrt k + 1))^j, exactness after n steps,
+   and T = Lanczos matrix of the preconditioned operator (see design_notes/C08.md). *)
+From mathcomp Require Import all_ssreflect all_algebra.
+Require Import C08.Model C08.ProofsBase C08.ProofsResidual C08.ProofsColumns C08.ProofsGuards
+               C08.ProofsScaling C08.ProofsTmat C08.ProofsEnergy.
+Set Implicit Arguments.
+Unset Strict Implicit.
+Unset Printing Implicit Defensive.
+Import Order.Theory GRing.Theory Num.Theory.
+Local Open Scope ring_scope.
+
+(* all states of a run: the state before the loop, then the state after loop body 1, 2, ... *)
+Notation run_states A S g u := (u_s0 u :: cg_states A S g u).
+
+(* ------------------------------------------------------------------------------------------------ *)
+(* 1. The residual carried by the loop is the true residual of the iterate carried by the loop, at every
+      iteration, for every column, with or without preconditioner (any function at all), whatever alpha and
+      beta are (frozen columns, fired safe divisions), from any initial guess.                          *)
+Theorem cg_true_residual :
+  forall (R : comRingType) (dv : R -> R -> R) (sq ab : R -> R) (lt le eq : R -> R -> bool),
+  let A := RA dv sq ab lt le eq in
+  forall (S : cg_settings R) (g : cg_args R) (u : cg_setup R) (Am : nat -> 'M[R]_(g_n g)),
+  cg_prepare A S g = Ok u ->
+  col_linear (size (g_rhs g)) Am (u_mm u) ->
+  forall s, List.In s (run_states A S g u) ->
+  forall j, (j < size (g_rhs g))%N ->
+    cv (g_n g) (cget (r_ (num_ s)) j)
+    = cv (g_n g) (cget (u_rhs u) j) - Am j *m cv (g_n g) (cget (x_ (num_ s)) j).
+Proof. move=> R dv sq ab lt le eq A S g u Am Hp Hl s Hs; exact: (all_true_res Hp Hl Hs). Qed.
+
+(* 2. Finishing without a NumericalWarning (after at least one iteration was allowed) means the stopping rule
+      fired: the mean over all columns of the norms of the TRUE residuals of the returned (normalised) iterate,
+      zero-rhs columns counted as 0, is below the tolerance.                                              *)
+Theorem cg_no_warning_bound :
+  forall (R : comRingType) (dv : R -> R -> R) (sq ab : R -> R) (lt le eq : R -> R -> bool),
+  let A := RA dv sq ab lt le eq in
+  forall (S : cg_settings R) (g : cg_args R) (u : cg_setup R) (Am : nat -> 'M[R]_(g_n g)),
+  cg_prepare A S g = Ok u ->
+  col_linear (size (g_rhs g)) Am (u_mm u) ->
+  let sf := cg_final A S g u in
+  o_warn (cg_finish A g u sf) = false -> (0 < u_n_iter u)%N ->
+  lt (mean A (size (g_rhs g)) (norms_masked A (g_n g) (size (g_rhs g)) (u_rhs_is_zero u) (r_ (num_ sf))))
+     (u_tolerance u)
+  /\ forall j, (j < size (g_rhs g))%N ->
+       cv (g_n g) (cget (r_ (num_ sf)) j)
+       = cv (g_n g) (cget (u_rhs u) j) - Am j *m cv (g_n g) (cget (x_ (num_ sf)) j).
+Proof.
+move=> R dv sq ab lt le eq A S g u Am Hp Hl sf Hw Hn.
+by have [H1 _ H3] := no_warning_stop Hp Hl Hw Hn.
+Qed.
+
+(* 3. A column whose right-hand side is zero yields exactly zero from the default zero initial guess: the
+      iterate, residual and search direction of that column are zero at every iteration, and so is the
+      returned column.  (Needs 0 / y = 0, true of fields; the preconditioner must be column-wise linear.) *)
+Theorem cg_zero_column :
+  forall (R : comRingType) (dv : R -> R -> R) (sq ab : R -> R) (lt le eq : R -> R -> bool),
+  (forall y, dv 0 y = 0) ->
+  let A := RA dv sq ab lt le eq in
+  forall (S : cg_settings R) (g : cg_args R) (u : cg_setup R) (Am Mm : nat -> 'M[R]_(g_n g)),
+  cg_prepare A S g = Ok u ->
+  col_linear (size (g_rhs g)) Am (u_mm u) ->
+  col_linear (size (g_rhs g)) Mm (u_pre u) ->
+  g_x0 g = None ->
+  forall j, (j < size (g_rhs g))%N ->
+  (forall i, (i < g_n g)%N -> vget A (cget (g_rhs g) j) i = 0) ->
+  (forall s, List.In s (run_states A S g u) -> forall i, (i < g_n g)%N ->
+     vget A (cget (x_ (num_ s)) j) i = 0) /\
+  (forall i, (i < g_n g)%N -> vget A (cget (o_res (cg_finish A g u (cg_final A S g u))) j) i = 0).
+Proof.
+move=> R dv sq ab lt le eq dv0 A S g u Am Mm Hp Hm Hpre Hx j hj Hb; split.
+  by move=> s Hs i hi; case: (all_zcol dv0 Hp Hm Hpre Hx hj Hb Hs hi).
+exact: (zero_result dv0 Hp Hm Hpre Hx hj Hb).
+Qed.
+
+(* 4. Once a column is marked converged (has_converged, i.e. its masked residual norm fell below
+      stop_updating_after) it is never changed again: in every later state it is still marked, and its
+      iterate and residual entries are the same.  Any closure, any preconditioner.                        *)
+Theorem cg_frozen_stays :
+  forall (F : rcfType) (S : cg_settings F) (g : cg_args F) (u : cg_setup F),
+  cg_prepare (FA F) S g = Ok u ->
+  forall j, (j < size (g_rhs g))%N ->
+  forall i1 i2, let sts := run_states (FA F) S g u in
+  (i1 <= i2 < size sts)%N ->
+  let a := num_ (nth (u_s0 u) sts i1) in let b := num_ (nth (u_s0 u) sts i2) in
+  bget (conv_ a) j ->
+  [/\ bget (conv_ b) j,
+      cv (g_n g) (cget (x_ b) j) = cv (g_n g) (cget (x_ a) j) &
+      cv (g_n g) (cget (r_ b) j) = cv (g_n g) (cget (r_ a) j)].
+Proof. move=> F S g u Hp j hj i1 i2 sts Hi; exact: (frozen_pair Hp hj Hi). Qed.
+
+(* 5. linear_cg (c * rhs, c * initial_guess) = c * linear_cg (rhs, initial_guess) for c > 0 — same raise,
+      same t_mat, same warning, same iteration count — provided no column is below eps before or after. *)
+Theorem cg_scaling :
+  forall (F : rcfType) (c : F), 0 < c ->
+  forall (S : cg_settings F) (g : cg_args F),
+  (forall j, (j < size (g_rhs g))%N -> (norm2 (FA F) (g_n g) (cget (g_rhs g) j) < g_eps g) = false) ->
+  (forall j, (j < size (g_rhs g))%N -> (c * norm2 (FA F) (g_n g) (cget (g_rhs g) j) < g_eps g) = false) ->
+  linear_cg (FA F) S (scale_args c g)
+  = match linear_cg (FA F) S g with Ok o => Ok (scale_out c o) | Err e => Err e end.
+Proof. move=> F c Hc S g H1 H2; exact: scaling. Qed.
+
+(* 6. The raises (any arithmetic, including binary64): linear_cg raises "tridiagonalization larger than the
+      number of CG iterations" iff max_tridiag_iter > max_iter; otherwise "must be a tensor or callable" iff the
+      closure is neither; otherwise "NaNs encountered" iff the first residual has an entry x with x != x;
+      otherwise it returns.                                                                              *)
+Theorem cg_guards :
+  forall (F : Type) (A : Arith F) (S : cg_settings F) (g : cg_args F),
+  match linear_cg A S g with
+  | Err ErrTridiagLimit => (eff_max_iter S g < eff_max_tridiag_iter S g)%N
+  | Err ErrNotCallable => (eff_max_tridiag_iter S g <= eff_max_iter S g)%N /\ closure_fun A (g_nc g) (g_mc g) = None
+  | Err ErrNaN => (eff_max_tridiag_iter S g <= eff_max_iter S g)%N /\
+                  exists2 mm, closure_fun A (g_nc g) (g_mc g) = Some mm & ~~ no_nan A (residual0 A g mm)
+  | Ok _ => (eff_max_tridiag_iter S g <= eff_max_iter S g)%N /\
+            exists2 mm, closure_fun A (g_nc g) (g_mc g) = Some mm & no_nan A (residual0 A g mm)
+  end.
+Proof. move=> F A S g; exact: (guards A S g). Qed.
+
+(* 7. With n_tridiag > 0 one matrix per tridiagonalised column is returned; each is square of size
+      min(last_tridiag_iter + 1, n_tridiag_iter), symmetric, and zero outside the three central diagonals.
+      Without n_tridiag nothing is returned.  Any arithmetic.                                            *)
+Theorem cg_tmat_shape :
+  forall (F : Type) (A : Arith F) (S : cg_settings F) (g : cg_args F) (u : cg_setup F),
+  cg_prepare A S g = Ok u ->
+  let sf := cg_final A S g u in
+  let o := cg_finish A g u sf in
+  if (0 < g_n_tridiag g)%N then
+    exists Ts, [/\ o_tmat o = Some Ts,
+                   size Ts = size (tri_cols (size (g_rhs g)) (g_nc g) (g_n_tridiag g)) &
+                   forall q, (q < size Ts)%N ->
+                     sym_tridiag A (minn (last_ (tri_ sf)).+1 (u_nti u)) (nth [::] Ts q)]
+  else o_tmat o = None.
+Proof.
+move=> F A S g u Hp sf o; case: ifP => Hn.
+  have [Ts [H1 H2 H3]] := tmat_shape Hp Hn.
+  by exists Ts; split => // q; rewrite H2; apply: H3.
+by apply: tmat_none; move: Hn; case: (g_n_tridiag g).
+Qed.
+
+(* 8. ... and its entries are the CG-to-Lanczos conversion of the coefficients of the run: with
+      ar k = 1 / (alpha_k, exact zeros replaced by 1) and bt k = beta_k of the tridiagonalised column after loop
+      body k, row i >= 1 holds  ar i + bt (i-1) * ar (i-1)  on the diagonal and  sqrt (bt (i-1)) * ar (i-1)  next
+      to it (the matrix is symmetric by 7), and T[0,0] = ar 0 as soon as a second row exists.  The returned
+      matrix is the leading m x m block of the accumulated one.  Any arithmetic.                           *)
+Theorem cg_tmat_entries :
+  forall (F : Type) (A : Arith F) (S : cg_settings F) (g : cg_args F) (u : cg_setup F),
+  cg_prepare A S g = Ok u ->
+  let sf := cg_final A S g u in
+  let h := fun k => num_ (nth (u_s0 u) (cg_states A S g u) k) in
+  forall q, (q < size (tri_cols (size (g_rhs g)) (g_nc g) (g_n_tridiag g)))%N ->
+  let M := nth [::] (tmat_ (tri_ sf)) q in
+  let col := nth 0%N (tri_cols (size (g_rhs g)) (g_nc g) (g_n_tridiag g)) q in
+  let ar := fun k => adiv A (a1 A) (let a := sget A (alpha_ (h k)) col in
+                                    if aeqb A a (a0 A) then a1 A else a) in
+  let bt := fun k => sget A (beta_ (h k)) col in
+  (forall i, (0 < i <= last_ (tri_ sf))%N ->
+     mget A M i i = aadd A (ar i) (amul A (bt i.-1) (ar i.-1)) /\
+     mget A M i i.-1 = amul A (asqrt A (bt i.-1)) (ar i.-1)) /\
+  ((0 < last_ (tri_ sf))%N -> mget A M 0 0 = ar 0%N).
+Proof. move=> F A S g u Hp sf h q hq; exact: (final_tri_filled Hp hq). Qed.
+
+Theorem cg_tmat_returned :
+  forall (F : Type) (A : Arith F) (g : cg_args F) (u : cg_setup F) (sf : cg_state F),
+  (0 < g_n_tridiag g)%N ->
+  let m := minn (last_ (tri_ sf)).+1 (u_nti u) in
+  o_tmat (cg_finish A g u sf) = Some [seq mtab m m (fun i j => mget A M i j) | M <- tmat_ (tri_ sf)].
+Proof. by move=> F A g u sf Hn m; rewrite /cg_finish /= Hn. Qed.
+
+(* 9. The A-norm of the error never increases (SPD not even needed: symmetric A_j, and the run never hits the
+      p^T A p < eps safe division on a column that is still being updated).  e_k = x* - x_k for any x* with
+      A_j x* = normalised rhs;  E(s) = e^T A_j e.                                                           *)
+Theorem cg_anorm_monotone :
+  forall (F : rcfType) (S : cg_settings F) (g : cg_args F) (u : cg_setup F) (Am : nat -> 'M[F]_(g_n g)),
+  cg_prepare (FA F) S g = Ok u ->
+  col_linear (size (g_rhs g)) Am (u_mm u) ->
+  forall j, (j < size (g_rhs g))%N ->
+  forall xs : 'cV[F]_(g_n g),
+  (Am j)^T = Am j -> Am j *m xs = cv (g_n g) (cget (u_rhs u) j) ->
+  0 < g_eps g ->
+  no_breakdown (g_n g) (u_mm u) (g_eps g) j (num_ (u_s0 u) :: map (@num_ F) (cg_states (FA F) S g u)) ->
+  forall i1 i2, let sts := run_states (FA F) S g u in
+  (i1 <= i2 < size sts)%N ->
+  energy (Am j) xs (cv (g_n g) (cget (x_ (num_ (nth (u_s0 u) sts i2))) j))
+  <= energy (Am j) xs (cv (g_n g) (cget (x_ (num_ (nth (u_s0 u) sts i1))) j)).
+Proof. move=> F S g u Am Hp Hl j hj xs Hs Hx He Hnb i1 i2 sts Hi; exact: (energy_pair Hp Hl hj Hs Hx He Hnb Hi). Qed.
+
+(* the dense closure of a tensor argument (line 164) multiplies column j by the matrix of its batch member *)
+Theorem cg_dense_closure_linear :
+  forall (R : comRingType) (dv : R -> R -> R) (sq ab : R -> R) (lt le eq : R -> R -> bool)
+         (n C nc : nat) (Ms : seq (mat R)),
+  (forall j, (j < C)%N -> wf_mat n (nth [::] Ms (j %/ nc))) ->
+  col_linear C (fun j => mx_of n (nth [::] Ms (j %/ nc))) (tensor_mm (RA dv sq ab lt le eq) nc Ms).
+Proof. move=> R dv sq ab lt le eq n C nc Ms H; exact: tensor_mm_linear. Qed.
+
+(* in exact arithmetic the NaN guard cannot fire: with consistent limits and a tensor / callable closure the
+   preparation succeeds (so the hypotheses `cg_prepare A S g = Ok u` above are satisfiable for every such input) *)
+Theorem cg_prepare_succeeds :
+  forall (R : comRingType) (dv : R -> R -> R) (sq ab : R -> R) (lt le : R -> R -> bool),
+  let A := RA dv sq ab lt le (fun x y => x == y) in
+  forall (S : cg_settings R) (g : cg_args R) mm,
+  (eff_max_tridiag_iter S g <= eff_max_iter S g)%N ->
+  closure_fun A (g_nc g) (g_mc g) = Some mm ->
+  exists2 u, cg_prepare A S g = Ok u & u_mm u = mm.
+Proof. move=> R dv sq ab lt le A S g mm; exact: prepare_succeeds. Qed.
+
+(* ------------------------------------------------------------------------------------------------ *)
+(* Non-vacuity: the hypotheses of the theorems above are satisfiable.                                *)
+
+(* a 2 x 2 system with two columns (the second one zero), dense tensor closure, Jacobi-like callable
+   preconditioner, over any real closed field: preparation succeeds, both closures are column-wise linear, the
+   second column is a zero column, and there is no initial guess *)
+Section Examples.
+Variable F : rcfType.
+Let A := FA F.
+Let Ms : seq (mat F) := [:: [:: [:: 2%:R; 1]; [:: 1; 2%:R]]].
+Let Ps : seq (mat F) := [:: [:: [:: 2%:R^-1; 0]; [:: 0; 2%:R^-1]]].
+Let S0 : cg_settings F := MkSettings 1000 20 1 false (1 / 1000000%:R).
+Let g0 : cg_args F :=
+  MkArgs (ClTensor Ms) 2 2 false [:: [:: 1; 2%:R]; [:: 0; 0]] 1 None (1 / 10%:R) (1 / 10%:R) (Some 5%N) (Some 2%N) None
+         (Some (tensor_mm A 2 Ps)).
+
+Example cg_hypotheses_satisfiable :
+  exists u,
+  [/\ cg_prepare A S0 g0 = Ok u,
+      col_linear (size (g_rhs g0)) (fun j => mx_of 2 (nth [::] Ms (j %/ 2))) (u_mm u),
+      col_linear (size (g_rhs g0)) (fun j => mx_of 2 (nth [::] Ps (j %/ 2))) (u_pre u),
+      g_x0 g0 = None &
+      forall i, (i < g_n g0)%N -> vget A (cget (g_rhs g0) 1) i = 0].
+Proof.
+have [u Hu Hm] : exists2 u, cg_prepare A S0 g0 = Ok u & u_mm u = tensor_mm A 2 Ms.
+  exact: (@prepare_succeeds _ _ _ _ _ _ S0 g0).
+exists u; split => //.
+- by rewrite Hm; apply: tensor_mm_linear => j; rewrite /= => hj; rewrite divn_small //= !eqxx.
+- have [_ [-> _ _ _ _] _ _ _] := prepare_inv Hu.
+  by apply: tensor_mm_linear => j; rewrite /= => hj; rewrite divn_small //= !eqxx.
+- by case=> [|[|i]].
+Qed.
+
+(* the no-column-is-zero hypotheses of cg_scaling: rhs = (1), eps = 1/10, scaling by any c >= 1 *)
+Example cg_scaling_hypotheses_satisfiable (c : F) :
+  1 <= c ->
+  let g := MkArgs (ClTensor [:: [:: [:: 2%:R : F]]]) 1 1 false [:: [:: 1]] 0 None (1 / 10%:R) (1 / 10%:R)
+                  None None None None in
+  0 < c /\
+  (forall j, (j < size (g_rhs g))%N -> (norm2 A (g_n g) (cget (g_rhs g) j) < g_eps g) = false) /\
+  (forall j, (j < size (g_rhs g))%N -> (c * norm2 A (g_n g) (cget (g_rhs g) j) < g_eps g) = false).
+Proof.
+move=> Hc g.
+have H10 : (1 / 10%:R : F) < 1.
+  by rewrite div1r invf_lt1 ?ltr0n // ltr1n.
+have Hn : norm2 A 1 [:: 1] = 1 by rewrite /norm2 /dot /= mulr1 add0r sqrtr1.
+split; first exact: lt_le_trans ltr01 Hc.
+split=> [] [|j] // _; rewrite [g_n g]/= [cget _ _]/= [g_eps g]/= Hn ?mulr1; apply/negbTE; rewrite -leNgt; apply: ltW => //.
+exact: lt_le_trans H10 Hc.
+Qed.
+
+End Examples.
